@@ -172,7 +172,8 @@ def recount_runner_context(c, strategy, market, tag="ctx"):
         c.ob("%s.trade-complete<=>orders-complete" % tag, (t.status == TradeStatus.COMPLETE) == all_done, trade_status=t.status.name, all_done=all_done)
         c.ob("%s.trade-not-left-pending" % tag, t.status != TradeStatus.PENDING)
         n_complete = len([s for s in t.status_log if s == TradeStatus.COMPLETE])
-        c.ob("%s.trade-completes-at-most-once" % tag, n_complete <= 1, completions=n_complete)
+        # once per completion: a trade can only complete again after a further order has been placed in it
+        c.ob("%s.trade-completes-at-most-once" % tag, n_complete <= max(1, len(placed)), completions=n_complete, placed=len(placed))
 
 
 def blotter_coherence(c, market, placed, tag="blotter"):
